@@ -130,6 +130,70 @@ def replay_model(ctx, model, A, B, n):
     return C.observable_difference(ca, cb, orc), orc.log, None
 
 
+PROBE_SEEDS = 24
+
+
+class RecordingOracle:
+    """wraps an oracle and records every answer, so that a probe state can be replayed by DictOracle"""
+
+    def __init__(self, inner):
+        self.inner = inner
+        self.log = {}
+
+    def inp(self, i):
+        v = self.inner.inp(i)
+        self.log["in_%d" % i] = v
+        return v
+
+    def const(self, key):
+        v = self.inner.const(key)
+        self.log["const:" + repr(key)] = v
+        return v
+
+    def func(self, name, args):
+        v = self.inner.func(name, args)
+        self.log["func:%s%r" % (name, tuple(args))] = v
+        return v
+
+    def mem_base(self, gen, addr):
+        v = self.inner.mem_base(gen, addr)
+        self.log["mem:%s:%d" % (gen, addr)] = v
+        return v
+
+    def sto_base(self, gen, key):
+        v = self.inner.sto_base(gen, key)
+        self.log["sto:%s:%d" % (gen, key)] = v
+        return v
+
+    def keccak(self, data):
+        v = self.inner.keccak(data)
+        self.log["keccak:" + data.hex()] = v
+        return v
+
+
+def concrete_probe(A, B, n):
+    """accelerator only: a few pseudo-random boundary states on the concrete twin.  A difference found here is a real
+    counterexample (reported with its state); finding none decides nothing -- the solver does."""
+    for seed in range(PROBE_SEEDS):
+        orc = RecordingOracle(C.HashOracle(seed))
+        try:
+            ca = C.run(A, n, orc, max_len=2048)
+            cb = C.run(B, n, orc, max_len=2048)
+        except (C.OutOfBounds, IndexError, ValueError):
+            continue
+        d = C.observable_difference(ca, cb, orc)
+        if d is not None:
+            return d, orc.log
+    return None, None
+
+
+def model_satisfies(model, goal):
+    try:
+        return all(z3.is_true(model.eval(g, model_completion=True)) for g in goal)
+    except z3.Z3Exception:
+        return False
+
+
 def check_equiv(A, B, timeout_ms=10000, kind="equiv"):
     """decide  exists sigma. exec(A,sigma) != exec(B,sigma)  (A, B lists of (name, value))"""
     t0 = time.time()
@@ -155,6 +219,7 @@ def check_equiv(A, B, timeout_ms=10000, kind="equiv"):
         return Result("unsupported", "malformed input: " + malformed[0][1])
     if [tuple(i) for i in A] == [tuple(i) for i in B]:
         return Result("equal", "identical", stage="syntactic")
+    probed = False
     for abstract in (True, False):
         try:
             ctx, n, a, b, reason, dis = _build(A, B, abstract)
@@ -175,6 +240,12 @@ def check_equiv(A, B, timeout_ms=10000, kind="equiv"):
         if not dis:
             return Result("equal", "all observables syntactically identical after simplification",
                           seconds=time.time() - t0, stage=stage)
+        if not probed:
+            probed = True
+            d, log = concrete_probe(A, B, n)
+            if d is not None:
+                STATS.record(kind + ":probe", "concrete-witness", "twin", 0.0)
+                return Result("different", "found by the concrete probe", log, d, time.time() - t0, "probe")
         goal = ctx.assumptions + ctx.side + [z3.Or(*[f for _, f in dis])]
         verdict, model = solve(goal, min(timeout_ms, 3000), STATS, kind + ":" + stage, portfolio=False)
         if verdict == "unknown" and not abstract and ctx.shift_amounts:
@@ -188,6 +259,9 @@ def check_equiv(A, B, timeout_ms=10000, kind="equiv"):
         if verdict == "sat":
             if abstract:
                 continue
+            if not model_satisfies(model, goal):
+                return Result("unknown", "solver returned a model that does not satisfy the query", seconds=time.time() - t0,
+                              stage=stage)
             labels = [l for l, f in dis if z3.is_true(model.eval(f, model_completion=True))]
             diff, log, err = replay_model(ctx, model, A, B, n)
             if err:
